@@ -65,13 +65,13 @@ Theorem C05_metadata : forall r,
 Proof. exact c05_metadata. Qed.
 Print Assumptions C05_metadata.
 
-(* with distinct node ids and topic names nothing is merged: every broker and topic, in order *)
+(* with distinct node ids, topic names and (per topic) partition ids nothing is merged: every broker, topic and
+   partition of the response, in order ([plain_metadata] = plain maps over the response, no dict function) *)
 Theorem C05_metadata_unique_keys : forall r,
   wf_metadata r = true ->
   NoDup (map sb_node (sm_brokers r)) -> NoDup (map smt_name (sm_topics r)) ->
-  decode_metadata_response (enc_metadata r)
-  = Ok (map (fun b => (sb_node b, view_broker b)) (sm_brokers r),
-        map (fun t => (smt_name t, view_meta_topic t)) (sm_topics r)).
+  (forall t, In t (sm_topics r) -> NoDup (map smp_index (smt_parts t))) ->
+  decode_metadata_response (enc_metadata r) = Ok (plain_metadata r).
 Proof. exact c05_metadata_unique. Qed.
 Print Assumptions C05_metadata_unique_keys.
 
@@ -121,6 +121,12 @@ Theorem C05_sync_member_assignment : forall r,
   wf_assignment r = true -> decode_sync_group_member_assignment (enc_assignment r) = Ok (view_assignment r).
 Proof. exact c05_assignment. Qed.
 Print Assumptions C05_sync_member_assignment.
+
+Theorem C05_sync_member_assignment_unique_keys : forall r,
+  wf_assignment r = true -> NoDup (map sas_topic (asg_topics r)) ->
+  decode_sync_group_member_assignment (enc_assignment r) = Ok (plain_assignment r).
+Proof. exact c05_assignment_unique. Qed.
+Print Assumptions C05_sync_member_assignment_unique_keys.
 
 (* bytes after the response are ignored *)
 Theorem C05_trailing_bytes_ignored : forall r rest,
@@ -176,10 +182,35 @@ Theorem C05_wrapper_offsets_v1 : forall gz orc,
 Proof. exact wrapper_v1. Qed.
 Print Assumptions C05_wrapper_offsets_v1.
 
-Theorem C05_relocate_spec : forall (W : Z) (l : list (Z * kmsg)) o m,
-  relocate W (l ++ [(o, m)]) = map (fun om => (W - o + fst om, snd om)) (l ++ [(o, m)]).
-Proof. exact (@relocate_spec kmsg). Qed.
-Print Assumptions C05_relocate_spec.
+(* [relocate] (and with it the decoder) pinned down without its formula: the inner offsets are shifted uniformly (every
+   difference between two inner offsets is kept, gaps included), the messages are untouched, and the last one lands
+   exactly on the wrapper's offset.  These facts determine the result. *)
+Theorem C05_relocate_characterised : forall (W : Z) (l : list (Z * kmsg)),
+  l <> [] ->
+  exists c, relocate W l = map (fun om => (fst om + c, snd om)) l /\ last_off (relocate W l) = Some W.
+Proof. exact (@relocate_characterised kmsg). Qed.
+Print Assumptions C05_relocate_characterised.
+
+(* KIP-31 DERIVED from the broker's side (Model.KafkaSpecResp.broker_batch_v1 = the protocol's definition: the log
+   gives the messages absolute offsets a_i; the compressed format-1 batch stores r_i = a_i - base for the base the
+   batch was written at and puts a_k, the LAST absolute offset, on the wrapper): the decoder reports exactly the a_i,
+   for ANY offsets (dense, gaps left by compaction, first survivor not at the base) and any base *)
+Theorem C05_kip31_batch_recovered : forall gz orc,
+  (forall x, gz_dec orc (gz x) = Ok x) ->
+  forall d base attr ts key abs,
+  (1 < d)%nat -> wf_ktree gz (broker_batch_v1 base attr ts key abs) = true ->
+  dec_set d orc (enc_ktree gz (broker_batch_v1 base attr ts key abs)) = (view_log abs, None).
+Proof. exact broker_batch_v1_recovered. Qed.
+Print Assumptions C05_kip31_batch_recovered.
+
+(* format 0: the batch stores the absolute offsets themselves *)
+Theorem C05_v0_batch_recovered : forall gz orc,
+  (forall x, gz_dec orc (gz x) = Ok x) ->
+  forall d attr ts key abs,
+  (1 < d)%nat -> wf_ktree gz (broker_batch_v0 attr ts key abs) = true ->
+  dec_set d orc (enc_ktree gz (broker_batch_v0 attr ts key abs)) = (view_log abs, None).
+Proof. exact broker_batch_v0_recovered. Qed.
+Print Assumptions C05_v0_batch_recovered.
 
 (* a broker numbers the inner messages 0..n-1: a wrapper stored at W yields W-n+1 .. W *)
 Theorem C05_relocate_broker : forall (W : Z) (l : list (Z * kmsg)),
@@ -218,26 +249,20 @@ Theorem C05_afkak_plain_roundtrip : forall d orc clock k msgs offset incr magic 
 Proof. exact complete_set. Qed.
 Print Assumptions C05_afkak_plain_roundtrip.
 
-(* create_gzip_message + _encode_message_set + decode: every message comes back; a format-0 wrapper passes the stored
-   inner offsets through, a format-1 wrapper relocates them *)
+(* create_gzip_message + _encode_message_set + decode: every message comes back ([map snd (expected ..)] = the
+   messages as they look on the wire, [all_at o ms] = every one of them at offset o).  afkak stores every inner
+   message at offset 0: a format-0 wrapper passes that through, a format-1 wrapper at [off] reports them at [off] *)
 Theorem C05_afkak_gzip_roundtrip : forall orc,
   (forall x z, bytes_ok x = true -> gz_enc orc x = Ok z -> gz_dec orc z = Ok x /\ bytes_ok z = true) ->
   forall d clock k k' msgs magic w off incr mg bs,
   forallb plain msgs = true ->
   create_gzip_message orc clock k msgs magic = Ok w ->
   encode_message_set_from clock k' [w] off incr mg = Ok bs ->
-  dec_set (S (S d)) orc bs
-  = ((if (magic =? 0) then expected clock k msgs 0 0 else absolute off (expected clock k msgs 0 0)), None).
-Proof. exact gzip_set_roundtrip. Qed.
+  dec_set (S (S d)) orc bs = (all_at (if (magic =? 0) then 0 else off) (map snd (expected clock k msgs 0 0)), None).
+Proof. exact gzip_set_roundtrip_at. Qed.
 Print Assumptions C05_afkak_gzip_roundtrip.
 
-(* afkak writes every inner offset as 0, so the format-1 wrapper at [off] reports all its messages at [off] *)
-Theorem C05_afkak_gzip_offsets : forall clock k msgs off,
-  absolute off (expected clock k msgs 0 0) = map (fun om => (off, snd om)) (expected clock k msgs 0 0).
-Proof. exact c05_afkak_gzip_offsets. Qed.
-Print Assumptions C05_afkak_gzip_offsets.
-
-(* a wrapper of a wrapper (nesting depth 2), any combination of the two formats *)
+(* a wrapper of a wrapper (nesting depth 2), any combination of the two formats: the OUTER format decides *)
 Theorem C05_afkak_gzip_nested_roundtrip : forall orc,
   (forall x z, bytes_ok x = true -> gz_enc orc x = Ok z -> gz_dec orc z = Ok x /\ bytes_ok z = true) ->
   forall d clock k k1 k2 msgs magic1 w1 magic2 w2 off incr mg bs,
@@ -245,31 +270,77 @@ Theorem C05_afkak_gzip_nested_roundtrip : forall orc,
   create_gzip_message orc clock k msgs magic1 = Ok w1 ->
   create_gzip_message orc clock k1 [w1] magic2 = Ok w2 ->
   encode_message_set_from clock k2 [w2] off incr mg = Ok bs ->
-  let inner := if (magic1 =? 0) then expected clock k msgs 0 0 else absolute 0 (expected clock k msgs 0 0) in
-  dec_set (S (S (S d))) orc bs = ((if (magic2 =? 0) then inner else absolute off inner), None).
-Proof. exact gzip_nested_roundtrip. Qed.
+  dec_set (S (S (S d))) orc bs = (all_at (if (magic2 =? 0) then 0 else off) (map snd (expected clock k msgs 0 0)), None).
+Proof. exact gzip_nested_roundtrip_at. Qed.
 Print Assumptions C05_afkak_gzip_nested_roundtrip.
 
-(* the producer's path: create_message_set(requests, codec, magic) -> _encode_message_set -> decode gives back exactly
-   the (key, payload) pairs of the requests, in order ([kv] = (key, value) of a message; [flatten_requests] = the
-   pairs of SendRequest.key with each of its messages; [kv_ok] = byte strings or null) *)
+(* the producer's path: create_message_set(requests, codec, magic) -> _encode_message_set -> decode.
+   [flatten_requests] = the (SendRequest.key, payload) pairs in order; [kv_ok] = byte strings or null.
+   What create_message_set builds from them: *)
+Theorem C05_producer_messages : forall clock reqs magic,
+  create_messages clock reqs magic
+  = map (fun ikp => mkMessage (if (magic =? 1) then 1 else 0) 0 (fst (snd ikp)) (snd (snd ikp))
+                              (if (magic =? 1) then Some (clock (fst ikp)) else None))
+        (combine (seq 0 (length (flatten_requests reqs))) (flatten_requests reqs)).
+Proof. exact create_messages_spec. Qed.
+Print Assumptions C05_producer_messages.
+
+(* uncompressed: exactly those messages (format, attributes, key, payload, timestamp), numbered off, off+incr, ... *)
 Theorem C05_producer_plain_roundtrip : forall d orc clock reqs magic ws k' off incr mg bs,
   forallb kv_ok (flatten_requests reqs) = true ->
   create_message_set orc clock reqs CODEC_NONE magic = Ok ws ->
   encode_message_set_from clock k' ws off incr mg = Ok bs ->
-  exists ys, dec_set (S d) orc bs = (ys, None) /\ map (fun om => kv (snd om)) ys = flatten_requests reqs.
+  dec_set (S d) orc bs = (numbered off incr (create_messages clock reqs magic), None).
 Proof. exact producer_plain_roundtrip. Qed.
 Print Assumptions C05_producer_plain_roundtrip.
 
+(* gzip: exactly those messages, all at the wrapper's offset (format 1) or at the stored inner offset 0 (format 0) *)
 Theorem C05_producer_gzip_roundtrip : forall d orc clock reqs magic ws k' off incr mg bs,
   (forall x z, bytes_ok x = true -> gz_enc orc x = Ok z -> gz_dec orc z = Ok x /\ bytes_ok z = true) ->
   forallb kv_ok (flatten_requests reqs) = true ->
   create_message_set orc clock reqs CODEC_GZIP magic = Ok ws ->
   encode_message_set_from clock k' ws off incr mg = Ok bs ->
-  exists ys, dec_set (S (S d)) orc bs = (ys, None) /\ map (fun om => kv (snd om)) ys = flatten_requests reqs
-             /\ Forall (fun om => fst om = if (magic =? 0) then 0 else off) ys.
+  dec_set (S (S d)) orc bs = (all_at (if (magic =? 0) then 0 else off) (create_messages clock reqs magic), None).
 Proof. exact producer_gzip_roundtrip. Qed.
 Print Assumptions C05_producer_gzip_roundtrip.
+
+(* ================================================================== 3b. Message.timestamp_type (common.py:660).
+   The codec neither writes nor reads the field (Model.RespView: py_encode_message ignores it, py_decoded leaves the
+   default 0).  Hence: the identity holds, field included, exactly when the field is 0 ... *)
+Theorem C05_timestamp_type_roundtrip : forall d orc now pm bs off,
+  pm_tstype pm = 0 -> plain (pm_msg pm) = true ->
+  py_encode_message now pm = Ok bs ->
+  py_decoded_set (dec_message (dec_set d orc) orc (Some bs) off)
+  = [(off, mk_pymessage (wire_view now (pm_msg pm)) (pm_tstype pm))].
+Proof. exact c05_tstype_roundtrip. Qed.
+Print Assumptions C05_timestamp_type_roundtrip.
+
+(* ... and fails otherwise: Message(1, 0, b"k", b"v", 5, timestamp_type=1) comes back with timestamp_type 0 *)
+Theorem C05_timestamp_type_refuted :
+  plain (pm_msg tstype_witness) = true /\
+  exists bs, py_encode_message 0 tstype_witness = Ok bs /\
+             py_decoded_set (dec_message (dec_set 1 marker_oracle) marker_oracle (Some bs) 7)
+             = [(7, mk_pymessage (pm_msg tstype_witness) 0)] /\
+             mk_pymessage (pm_msg tstype_witness) 0 <> tstype_witness.
+Proof. exact c05_tstype_refuted. Qed.
+Print Assumptions C05_timestamp_type_refuted.
+
+(* against the protocol (attributes bit 3 of a format-1 message is its timestamp type, [k_tstype]): a LogAppendTime
+   message decodes with timestamp_type 0 ... *)
+Theorem C05_timestamp_type_spec_refuted :
+  wf_kmsg tstype_log_append = true /\ k_tstype tstype_log_append = 1 /\
+  map (fun op => pm_tstype (snd op))
+      (py_decoded_set (dec_message (dec_set 1 marker_oracle) marker_oracle (Some (enc_kmsg tstype_log_append)) 7)) = [0].
+Proof. exact c05_tstype_spec_refuted. Qed.
+Print Assumptions C05_timestamp_type_spec_refuted.
+
+(* ... what IS kept for every message: the bit stays readable in Message.attributes *)
+Theorem C05_timestamp_type_partial : forall rec orc m off,
+  wf_kmsg m = true ->
+  exists dm, dec_message rec orc (Some (enc_kmsg m)) off = ([(off, dm)], None) /\
+             (if (m_magic dm =? 1) then (m_attr dm / 8) mod 2 else 0) = k_tstype m.
+Proof. exact c05_tstype_attr_kept. Qed.
+Print Assumptions C05_timestamp_type_partial.
 
 (* ================================================================== 4. outside the supported versions
    afkak supports Produce / Fetch versions 0 and 2 only (kafkacodec.py:559 "we only support 2 versions"); a
@@ -357,3 +428,15 @@ Example ex_afkak_gzip :
   = Ok ([(500, mkMessage 1 0 (Some [107]) (Some [1; 2; 3]) (Some 1600000000000));
          (500, mkMessage 1 0 None None (Some (-1)))], None).
 Proof. split; vm_compute; reflexivity. Qed.
+
+(* a compacted format-1 batch: written at base 100 with 6 messages, the survivors are those at 102, 103 and 107 *)
+Definition ex_compacted : ktree :=
+  broker_batch_v1 100 1 0 None [(102, mk_kmsg 1 0 1 None (Some [97])); (103, mk_kmsg 1 0 2 (Some [107]) None);
+                                (107, mk_kmsg 1 8 3 None (Some []))].
+Example ex_compacted_wf : wf_ktree ex_gz ex_compacted = true /\
+  (match ex_compacted with KWrap off _ _ _ _ kids => (off, map (fun t => match t with KLeaf o _ => o | _ => -1 end) kids) | _ => (0, []) end)
+  = (107, [2; 3; 7]).
+Proof. split; vm_compute; reflexivity. Qed.
+Example ex_compacted_offsets :
+  map fst (fst (dec_set 2 marker_oracle (enc_ktree ex_gz ex_compacted))) = [102; 103; 107].
+Proof. vm_compute. reflexivity. Qed.
